@@ -276,12 +276,29 @@ def _assign_ids(rules):
 def _update_local_references(rules):
     counter = ex.SymbolCounter()
 
+    # The names of the class fields that have been parsed so far (when we are
+    # inside of a class).
+    fields = set()
+
     def previsit(node):
+        if isinstance(node, ex.Let):
+            node.is_shadowing = counter.is_bound(node.name) or node.name in fields
+
         counter.previsit(node)
         if node.is_reference and counter.is_bound(node.name):
             node.is_local = True
 
-    visit(rules, previsit, counter.postvisit)
+    def postvisit(node):
+        counter.postvisit(node)
+        if isinstance(node, ex.Class):
+            fields.clear()
+        elif isinstance(node, ex.Rule) and node.name and node in current_members:
+            fields.add(node.name)
+
+    current_members = []
+    for rule in rules:
+        current_members = rule.members if isinstance(rule, ex.Class) else []
+        visit(rule, previsit, postvisit)
 
 
 def _update_rule_references(rules, extends):
